@@ -11,21 +11,33 @@ HARNESS = os.path.join(core.VERIF, "harness", "c04.py")
 
 def run(tier: str) -> int:
     chk = core.Check("C04", tier, "other")
-    chk.encode("tel2puml/events.py", "Event.__init__, update_event_sets, update_in_event_sets, remove_event_type_from_event_sets, "
+    chk.encode("tel2puml/pv_to_puml/pv_to_puml.py", "pv_streams_to_puml_files, pv_to_puml_file, pv_to_puml_string (ingestion stage; diagram stages stubbed)")
+    chk.encode("tel2puml/pv_to_puml/data_ingestion.py", "update_and_create_events_from_clustered_pvevents (add_dummy_start)")
+    chk.encode("tel2puml/events.py", "save_events_to_file, load_events_from_file, Event.__init__, update_event_sets, update_in_event_sets, remove_event_type_from_event_sets, "
                "logic_gate_tree (getter), to_event_input, EventSet.to_event_set_count_input_list, events_to_event_inputs, "
                "event_inputs_to_events, events_to_raw_input, raw_input_to_events, EventInput / EventSetCountInput models")
-    chk.bounds = {"histories": "every history of 3 operations from {update successors (4 lists, incl. a repeated type), update predecessors "
+    chk.bounds = {"histories": "every history of 3 (thorough: also 4, 11^4 = 14641) operations from {update successors (4 lists, incl. a repeated type), update predecessors "
                                "(4 lists), remove a type, read the gate tree, save+load through the JSON model}: 11^3 = 1331 histories; "
                                "after every step the sets and counts equal a multiset reference and every read of the gate tree equals "
                                "G(current successor sets)"}
+    chk.bounds["chunks"] = ("three jobs (two sharing a start event, one with a new start event), every split into a first and a second chunk "
+                            "with a save/load of the model in between, job name with and without a space: the model saved after the "
+                            "second chunk equals the model of a single run")
     chk.outside = ["equivalence of the DIAGRAMS of split and single runs (needs the learner: pm4py/networkx, see C01)",
                    "calculate_logic_gates itself (replaced by a deterministic marker G)", "file I/O of save_events_to_file/load_events_from_file (json text is produced and parsed in memory)"]
     chk.assumptions = ["calculate_logic_gates stubbed by a marker function of the successor sets", "CrossHair path exhaustion over a finite domain"]
     chk.explanation = ("PARTIAL: decides 'reloading a model with no new evidence still reproduces the logic' (cache coherence invariant) and "
-                       "'the model file round-trips every event, set and count'; diagram equivalence of chunked learning is not claimed")
+                       "'the model file round-trips every event, set and count', and that chunked learning through the real model "
+                       "plumbing reaches the same LEARNED STATE as a single run; diagram equivalence is not claimed")
     tmo = 400 if tier == "quick" else 1200
-    conds = [core.Cond(f"histories starting with op {o}", HARNESS, "check", {"o1": o}, tmo) for o in range(11)]
-    conds.append(core.Cond("twin", HARNESS, "twin", {"o1": 2}, tmo, expect_violation=True))
+    conds = [core.Cond(f"3-step histories starting with op {o}", HARNESS, "check", {"o1": o, "len": 3}, tmo) for o in range(11)]
+    if tier == "thorough":
+        conds += [core.Cond(f"4-step histories starting with ops {a},{b}", HARNESS, "check", {"o1": a, "o2": b, "len": 4}, tmo)
+                  for a in range(11) for b in range(11)]
+    conds.append(core.Cond("chunked learning through the model plumbing (which jobs in the second chunk, job name with/without a space)",
+                           HARNESS, "chunks", {"kind": "chunks"}, tmo))
+    conds.append(core.Cond("chunks.twin", HARNESS, "chunks_twin", {"kind": "chunks"}, tmo, expect_violation=True))
+    conds.append(core.Cond("twin", HARNESS, "twin", {"o1": 2, "len": 3}, tmo, expect_violation=True))
     return simple.run_conditions(chk, HARNESS, conds)
 
 
